@@ -723,7 +723,10 @@ inline bool faults_S(Rng& r, uint64_t idx)
       if (sink_fault >= 0)
       {
         auto& sk = *w.sinks[sink_fault];
-        if ((sink_fault_flush ? sk.flushes.load() : sk.writes.load()) > static_cast<uint64_t>(sink_call)) ++want;
+        uint64_t const calls = sink_fault_flush ? sk.flushes.load() : sk.writes.load();
+        // a flush that keeps failing is reported every time it fails, not only the first time
+        if (sink_fault_flush_persistent) want += calls > static_cast<uint64_t>(sink_call) ? calls - static_cast<uint64_t>(sink_call) : 0;
+        else if (calls > static_cast<uint64_t>(sink_call)) ++want;
       }
       if (notes < want)
       {
